@@ -197,7 +197,10 @@ def _unjson(a):
 
 def _describe(v):
     if hasattr(v, "_get_type"):
-        return {"pattern": str(v), "type": str(v._get_type()).split(".")[-1], "repeatable": bool(v._is_repeatable())}
+        d = {"pattern": str(v), "type": str(v._get_type()).split(".")[-1], "repeatable": bool(v._is_repeatable())}
+        if hasattr(v, "_get_verbose_pattern"):
+            d["class"] = {"negated": bool(v._Class__is_negated), "verbose": v._get_verbose_pattern()}
+        return d
     return {"value": v}
 
 
